@@ -1,9 +1,366 @@
-/- C07 — executable model (core Lean only).  Stub. -/
+/-
+C07 — executable model of how curved-edge data travels from the user's faces into the `edges`
+section (core Lean only):
+
+* `construct/edges.py`       `EdgeData.reverse` (hook added by the repair): `Datum.reverse`
+* `construct/flat/face.py`   `Face.invert` (repaired: reverses the data), `shift`, `reorient`
+                             (re-used from the C10 model, which is generic in the edge data)
+* `construct/operations/operation.py`  `Operation.edges` (12 `Frame.add_beam` calls)
+* `util/frame.py`            `Frame.add_beam` / `get_all_beams` (symmetric storage, enumeration
+                             order `CBV.Gen.beamOrder` regenerated from the source)
+* `lists/edge_list.py`       `EdgeList.find / add / add_from_operation` (repaired: directed corner
+                             pair from `tools.edge_map`, table `CBV.Gen.c07EdgeDir`)
+* `items/edges/edge.py`, `arcs/arc_base.py`   `Edge.is_valid`, `ArcEdgeBase.is_valid`
+* `lists/vertex_list.py`     only the first-occurrence numbering of corner locations (no merged
+                             patches); the full vertex model is C05's
+* `mesh.py`                  the loop of `Mesh.assemble` as far as vertices and edges go
+
+Data objects are identified by a tag; the 12 positions of an operation are *slots*
+0-3 bottom edge i, 4-7 top edge i, 8-11 side edge i.
+-/
 import CBV.Model.Common
+import CBV.Model.C10
 import CBV.Gen.Tables
 
 namespace CBV.C07
 
-def handle (_op : String) (_args : List String) : Option String := none
+open CBV.C10 (Face)
+
+/-! ### edge data -/
+
+inductive Kind where
+  | line | arc | origin | angle | spline | polyLine | project | curve
+  deriving DecidableEq, Repr, Inhabited
+
+def Kind.name : Kind → String
+  | .line => "line" | .arc => "arc" | .origin => "origin" | .angle => "angle"
+  | .spline => "spline" | .polyLine => "polyLine" | .project => "project" | .curve => "curve"
+
+def Kind.all : List Kind := [.line, .arc, .origin, .angle, .spline, .polyLine, .project, .curve]
+
+def Kind.ofName? (s : String) : Option Kind := Kind.all.find? (fun k => k.name == s)
+
+/-- arc-based kinds (`ArcEdgeBase`): they get the collinearity test -/
+def Kind.isArc : Kind → Bool
+  | .arc | .origin | .angle => true
+  | _ => false
+
+/-- An `EdgeData` object.  `pts`: the interior points of a spline / polyLine, listed from the first
+    to the second vertex of the edge; `angle`: the sector angle of an `Angle`; `third`: the point
+    an arc passes through (given for `Arc`, the described arc's mid point for origin / angle —
+    supplied from outside, its formula is C08's subject), used by the validity filter only. -/
+structure Datum where
+  kind : Kind
+  tag : Nat
+  pts : List V3 := []
+  angle : Rat := 0
+  third : Option V3 := none
+  deriving DecidableEq, Repr, Inhabited
+
+/-- `EdgeData.reverse()`: no-op except `Angle` (negates the angle) and `Spline`/`PolyLine`
+    (flip the point list). -/
+def Datum.reverse (d : Datum) : Datum :=
+  match d.kind with
+  | .angle => { d with angle := -d.angle }
+  | .spline => { d with pts := d.pts.reverse }
+  | .polyLine => { d with pts := d.pts.reverse }
+  | _ => d
+
+/-- kinds whose `reverse` changes something -/
+def Kind.dirDep : Kind → Bool
+  | .angle | .spline | .polyLine => true
+  | _ => false
+
+def lineDatum : Datum := { kind := .line, tag := 0 }
+
+/-! ### faces -/
+
+/-- `Face.invert` after the repair: re-index as before, then `edge.reverse()` on every edge. -/
+def faceInvert {α : Type} (f : Face α Datum) : Face α Datum :=
+  let g := f.invert
+  { g with edges := g.edges.map Datum.reverse }
+
+inductive FaceOp where
+  | invert
+  | shift (k : Int)
+  | reorient (p : V3)
+  deriving Repr
+
+/-- one call on a face whose points are location ids; `pos` gives their coordinates -/
+def applyFaceOp (pos : Nat → V3) (f : Face Nat Datum) : FaceOp → Face Nat Datum
+  | .invert => faceInvert f
+  | .shift k => f.shift k
+  | .reorient p => f.reorient (fun l => V3.norm2 (p - pos l))
+
+def applyFaceOps (pos : Nat → V3) (f : Face Nat Datum) (ops : List FaceOp) : Face Nat Datum :=
+  ops.foldl (applyFaceOp pos) f
+
+/-- directed connectivity of a face: position `i` holds a datum described from point `i`
+    to point `i+1 mod 4` -/
+def dconn {α : Type} [Inhabited α] (f : Face α Datum) : List (α × α × Datum) :=
+  f.edges.zipIdx.map (fun (e, i) => (f.pts.getD i default, f.pts.getD ((i + 1) % 4) default, e))
+
+/-- the same curve described from its other end -/
+def flipC {α : Type} (x : α × α × Datum) : α × α × Datum := (x.2.1, x.1, x.2.2.reverse)
+
+/-! ### the 12 slots of an operation and the frame -/
+
+/-- directed corner pair a slot's datum is specified for -/
+def slotPair (s : Nat) : Nat × Nat :=
+  if s < 4 then (s, (s + 1) % 4)
+  else if s < 8 then (s - 4 + 4, (s - 4 + 1) % 4 + 4)
+  else (s - 8, s - 8 + 4)
+
+/-- `Frame.add_beam` accepts a pair iff it is one of `valid_pairs` (= `EDGE_PAIRS` as sets) -/
+def validPair (a b : Nat) : Bool :=
+  CBV.Gen.edgePairs.any (fun p => (p.1 == a && p.2 == b) || (p.1 == b && p.2 == a))
+
+/-- the `add_beam` calls of `Operation.edges`, in order: bottom 0-3, top 0-3, side 0-3;
+    `none` when a call would raise -/
+def frameInserts : Option (List (Nat × Nat × Nat)) :=
+  (List.range 12).mapM (fun s =>
+    let p := slotPair s
+    if validPair p.1 p.2 then some (p.1, p.2, s) else none)
+
+/-- `frame[a][b]`: symmetric storage, a later `add_beam` overwrites -/
+def frameGet (ins : List (Nat × Nat × Nat)) (a b : Nat) : Option Nat :=
+  (ins.reverse.find? (fun x => (x.1 == a && x.2.1 == b) || (x.1 == b && x.2.1 == a))).map (·.2.2)
+
+/-- `Frame.get_all_beams()` of `Operation.edges`: (corner_1, corner_2, slot) in the generated
+    enumeration order -/
+def allBeams : Option (List (Nat × Nat × Nat)) :=
+  frameInserts.map (fun ins =>
+    CBV.Gen.beamOrder.filterMap (fun p => (frameGet ins p.1 p.2).map (fun s => (p.1, p.2, s))))
+
+/-- `edge_map[a][b]` → `(loc.corner_1, loc.corner_2)` -/
+def edgeDir (a b : Nat) : Option (Nat × Nat) :=
+  (CBV.Gen.c07EdgeDir.find? (fun e => e.1 == a && e.2.1 == b)).map (fun e => (e.2.2.1, e.2.2.2))
+
+/-- the beams as `EdgeList.add_from_operation` (repaired) uses them: directed by `edge_map` -/
+def directedBeams : Option (List (Nat × Nat × Nat)) :=
+  allBeams.bind (fun bs => bs.mapM (fun x => (edgeDir x.1 x.2.1).map (fun p => (p.1, p.2, x.2.2))))
+
+/-! ### the edge list -/
+
+/-- an `Edge` object: two vertex indices and its data (also: a request to `EdgeList.add`) -/
+structure Entry where
+  v1 : Nat
+  v2 : Nat
+  d : Datum
+  deriving DecidableEq, Repr, Inhabited
+
+/-- `{a, b} == {c, d}` on python sets -/
+def samePair (a b c d : Nat) : Bool := (a == c && b == d) || (a == d && b == c)
+
+def Entry.same (e f : Entry) : Bool := samePair e.v1 e.v2 f.v1 f.v2
+
+def tol2 : Rat :=
+  let t : Rat := mkRat CBV.Gen.c07Tol.1 CBV.Gen.c07Tol.2
+  t * t
+
+/-- `Edge.is_valid` / `ArcEdgeBase.is_valid` with squared norms (`pos`: vertex index → position) -/
+def valid (pos : Nat → V3) (e : Entry) : Bool :=
+  if e.d.kind = .line then false
+  else if V3.norm2 (pos e.v1 - pos e.v2) < tol2 then false
+  else if e.d.kind.isArc then
+    match e.d.third with
+    | some p => decide (V3.norm2 (V3.cross (pos e.v1 - p) (pos e.v2 - p)) > tol2)
+    | none => true
+  else true
+
+/-- `EdgeList.find` (the exception is `none`) -/
+def find (es : List Entry) (a b : Nat) : Option Entry := es.find? (fun e => samePair a b e.v1 e.v2)
+
+/-- `EdgeList.add`: new list and the edge handed back to the block's wire -/
+def add (pos : Nat → V3) (es : List Entry) (r : Entry) : List Entry × Entry :=
+  match find es r.v1 r.v2 with
+  | some e => (es, e)
+  | none => if valid pos r then (es ++ [r], r) else (es, r)
+
+/-- a sequence of `add` calls: final list and the edge returned by each call -/
+def addAll (pos : Nat → V3) : List Entry → List Entry → List Entry × List Entry
+  | es, [] => (es, [])
+  | es, r :: rs =>
+      let a := add pos es r
+      let b := addAll pos a.1 rs
+      (b.1, a.2 :: b.2)
+
+def run (pos : Nat → V3) (rs : List Entry) (es : List Entry) : List Entry := (addAll pos es rs).1
+
+/-! ### operations -/
+
+/-- an operation after its corners were turned into vertices: 8 vertex indices, 12 slot data -/
+structure ROp where
+  verts : List Nat
+  data : List Datum
+  deriving Repr
+
+/-- the `add` calls `add_from_operation` makes for one operation, given the directed beams -/
+def reqsOfOp (beams : List (Nat × Nat × Nat)) (o : ROp) : List Entry :=
+  beams.map (fun x => ⟨o.verts.getD x.1 0, o.verts.getD x.2.1 0, o.data.getD x.2.2 lineDatum⟩)
+
+def allReqs (beams : List (Nat × Nat × Nat)) (ops : List ROp) : List Entry :=
+  ops.flatMap (reqsOfOp beams)
+
+/-- the edge list after assembling the operations in order -/
+def asmEdges (pos : Nat → V3) (beams : List (Nat × Nat × Nat)) (ops : List ROp) : List Entry :=
+  run pos (allReqs beams ops) []
+
+/-- the operation as the user builds it: two faces over location ids (with the calls applied to
+    them before the loft is made) and four side data -/
+structure UOp where
+  bottom : Face Nat Datum
+  bottomOps : List FaceOp
+  top : Face Nat Datum
+  topOps : List FaceOp
+  side : List Datum
+  deriving Repr
+
+/-- `VertexList.add` without merged patches: a location gets the index of its first occurrence.
+    State: the location of every vertex so far. -/
+def vertexOf (vs : List Nat) (l : Nat) : List Nat × Nat :=
+  if l ∈ vs then (vs, vs.idxOf l) else (vs ++ [l], vs.length)
+
+def vertexAll : List Nat → List Nat → List Nat × List Nat
+  | vs, [] => (vs, [])
+  | vs, l :: ls =>
+      let a := vertexOf vs l
+      let b := vertexAll a.1 ls
+      (b.1, a.2 :: b.2)
+
+/-- faces after the calls, `Operation.points`, `Operation.edges` data -/
+def UOp.resolve (pos : Nat → V3) (u : UOp) (vs : List Nat) : List Nat × ROp :=
+  let b := applyFaceOps pos u.bottom u.bottomOps
+  let t := applyFaceOps pos u.top u.topOps
+  let r := vertexAll vs (b.pts ++ t.pts)
+  (r.1, { verts := r.2, data := b.edges ++ t.edges ++ u.side })
+
+def resolveAll (pos : Nat → V3) : List Nat → List UOp → List Nat × List ROp
+  | vs, [] => (vs, [])
+  | vs, u :: us =>
+      let a := u.resolve pos vs
+      let b := resolveAll pos a.1 us
+      (b.1, a.2 :: b.2)
+
+/-- `Mesh.assemble` as far as vertices and edges go: vertex locations, resolved operations,
+    edge list, and per operation the edge each of the 12 beams' wires holds -/
+structure Assembled where
+  vlocs : List Nat
+  rops : List ROp
+  edges : List Entry
+  wires : List Entry
+  deriving Repr
+
+def assemble (locPos : Nat → V3) (beams : List (Nat × Nat × Nat)) (us : List UOp) : Assembled :=
+  let r := resolveAll locPos [] us
+  let vpos := fun v => locPos (r.1.getD v 0)
+  let a := addAll vpos [] (allReqs beams r.2)
+  { vlocs := r.1, rops := r.2, edges := a.1, wires := a.2 }
+
+/-! ### line protocol -/
+
+def parseV3s? (s : String) (sep : String) : Option (List V3) :=
+  if s = "-" then some [] else (s.splitOn sep).mapM parseV3?
+
+/-- `kind~tag~third~angle~pts` -/
+def parseDatum? (s : String) : Option Datum :=
+  match s.splitOn "~" with
+  | [k, t, th, an, ps] => do
+      let k ← Kind.ofName? k
+      let t ← t.toNat?
+      let th ← if th = "-" then some none else (parseV3? th).map some
+      let an ← parseRat? an
+      let ps ← parseV3s? ps "_"
+      if k.isArc && th.isNone then none else
+      some { kind := k, tag := t, pts := ps, angle := an, third := th }
+  | _ => none
+
+def parseFaceOp? (s : String) : Option FaceOp :=
+  match s.splitOn ":" with
+  | ["invert"] => some .invert
+  | ["shift", k] => k.toInt?.map .shift
+  | ["reorient", p] => (parseV3? p).map .reorient
+  | _ => none
+
+def parseData4? (s : String) : Option (List Datum) := do
+  let ds ← (s.splitOn ";").mapM parseDatum?
+  if ds.length = 4 then some ds else none
+
+/-- `l0.l1.l2.l3@d;d;d;d@op+op+…` (the last part may be empty) -/
+def parseFace? (s : String) : Option (Face Nat Datum × List FaceOp) :=
+  match s.splitOn "@" with
+  | [ls, ds, ops] => do
+      let ls ← (ls.splitOn ".").mapM String.toNat?
+      if ls.length ≠ 4 then none else
+      let ds ← parseData4? ds
+      let ops ← if ops = "" then some [] else (ops.splitOn "+").mapM parseFaceOp?
+      some (⟨ls, ds⟩, ops)
+  | _ => none
+
+def parseUOp? (s : String) : Option UOp :=
+  match s.splitOn "!" with
+  | [b, t, sd] => do
+      let b ← parseFace? b
+      let t ← parseFace? t
+      let sd ← parseData4? sd
+      some { bottom := b.1, bottomOps := b.2, top := t.1, topOps := t.2, side := sd }
+  | _ => none
+
+def showV3s (ps : List V3) : String := if ps.isEmpty then "-" else "_".intercalate (ps.map V3.toStr)
+
+def showEntry (e : Entry) : String :=
+  s!"{e.d.kind.name}:{e.v1}:{e.v2}:{e.d.tag}:{showRat e.d.angle}:{showV3s e.d.pts}"
+
+/-- `c07.asm <locations> <op|op|…>` →
+    `V[vertex locations] B[8 vertices per op] E[entries] W[corner pair and edge held, per beam, 12 per op]`;
+    `err` when `Operation.edges` / `edge_map` would raise on the current tables. -/
+def handleAsm (args : List String) : Option String :=
+  match args with
+  | [locs, ops] => do
+      let lp ← parseV3s? locs ";"
+      let us ← (ops.splitOn "|").mapM parseUOp?
+      let n := lp.length
+      -- every location id must exist
+      if us.any (fun u => (u.bottom.pts ++ u.top.pts).any (fun l => l ≥ n)) then none else
+      match directedBeams with
+      | none => some "err"
+      | some beams =>
+        let a := assemble (fun l => lp.getD l V3.zero) beams us
+        let v := showNatList a.vlocs
+        let b := ";".intercalate (a.rops.map (fun o => showNatList o.verts))
+        let e := ";".intercalate (a.edges.map showEntry)
+        let corners := (us.map (fun _ => beams)).flatten
+        let w := ";".intercalate ((a.wires.zip corners).map (fun (x, c) =>
+          s!"{c.1}:{c.2.1}:{x.v1}:{x.v2}:{x.d.kind.name}:{x.d.tag}:{if a.edges.contains x then 1 else 0}"))
+        some s!"V{v} B[{b}] E[{e}] W[{w}]"
+  | _ => none
+
+/-- `c07.face l0.l1.l2.l3@d;d;d;d@op+op <locations>` → points, tags, and direction-dependent
+    payload of the four edges after the calls -/
+def handleFace (args : List String) : Option String :=
+  match args with
+  | [face, locs] => do
+      let lp ← parseV3s? locs ";"
+      let f ← parseFace? face
+      if f.1.pts.any (fun l => l ≥ lp.length) then none else
+      let r := applyFaceOps (fun l => lp.getD l V3.zero) f.1 f.2
+      some (showNatList r.pts ++ " " ++
+        ";".intercalate (r.edges.map (fun d => s!"{d.kind.name}:{d.tag}:{showRat d.angle}:{showV3s d.pts}")))
+  | _ => none
+
+/-- `c07.beams` → the directed beams computed from the generated tables -/
+def handleBeams (args : List String) : Option String :=
+  match args with
+  | [] => some (match directedBeams with
+      | none => "err"
+      | some bs => ";".intercalate (bs.map (fun x => s!"{x.1}:{x.2.1}:{x.2.2}")))
+  | _ => none
+
+def handle (op : String) (args : List String) : Option String :=
+  match op with
+  | "c07.asm" => handleAsm args
+  | "c07.face" => handleFace args
+  | "c07.beams" => handleBeams args
+  | _ => none
 
 end CBV.C07
